@@ -27,6 +27,7 @@ PROPS = {
     "C08": {"slices": WIRED, "trusted": SRV_TRUST + ["fault model: a storage command fails atomically (no partial effect of the failing command itself); a server crash is modelled as the failure of the next command plus a lost response"],
             "assumptions": ["the recovery half (C08_statement_list) is a definition, not yet a theorem", "handlers of one datatype run one at a time"]},
     "C06": {"slices": WIRE + WIREF, "trusted": SRV_TRUST, "assumptions": ["handlers of one datatype run one at a time (the lock, C12)", "no storage fault during the request (C08)"]},
+    "C11": {"slices": WIRE + WIRED, "trusted": SRV_TRUST, "assumptions": ["snapshot updates of one datatype run one at a time (their TryLock; a racing update is skipped)", "Document snapshots are compared by the replay oracle only, not modelled"]},
     "C13": {"slices": WIRE, "trusted": SRV_TRUST, "assumptions": ["handlers of one datatype run one at a time"]},
     "C16": {"slices": WIRE, "trusted": SRV_TRUST, "assumptions": ["liveness of the Go code (no hang, no crash) is tested, not proved"]},
     "C17": {"slices": WIRE, "trusted": SRV_TRUST, "assumptions": ["ResetCollection is not modelled yet"]},
